@@ -36,6 +36,7 @@ THEOREMS = [
     "no_external_content",
     "marker_never_in_tree",
     "fuel_monotone",
+    "content_fuel_suffices",
     "feature_on_reaches_outside",
 ]
 
@@ -746,6 +747,26 @@ def grid_docs():
     return docs
 
 
+def exhaustive_docs():
+    """Thorough tier: every ordered pair of declaration shapes x external subset x standalone x body."""
+    shapes = [("gi", "e0", [T("v")]), ("gi", "e0", [T("x"), R("e1")]), ("gi", "e1", [O("b"), R("e0"), C("b")]),
+              ("pi", "p0", [("gi", "e1", [T("w")])]), ("pr", "p0"), ("pr", "pu"),
+              ("ad", "r", "k", [("r", "e0")]), ("ad", "r", "k", [("t", "d")])]
+    for s in (1, 4, 9):
+        shapes += [("ge", "e0", s), ("ge", "e1", s), ("gn", "e0", s), ("pi", "p0", [("ge", "e0", s)]),
+                   ("pe", "p0", s)]
+    bodies = [[O("r"), T("a"), R("e0"), T("b"), C("r")],
+              [O("r", [("k", [("r", "e0")])]), C("r")],
+              [O("r"), R("e1"), O("b", [("j", [("t", "x"), ("r", "e1")])]), C("b"), C("r")],
+              [O("r"), R("e0"), R("z"), C("r")]]
+    for d1 in shapes:
+        for d2 in shapes:
+            for ext in (None, 2, 9):
+                for sa in (False, True):
+                    for b in bodies:
+                        yield mk_doc([d1, d2], b, ext=ext, standalone=sa)
+
+
 def doc_features(doc):
     """Buckets for the distribution and the non-triviality of a document."""
     f = set()
@@ -811,11 +832,13 @@ def E(name, attrs, *kids):
     return toks
 
 
-def wsdl_body(doc_toks, loc_atoks, tns_atoks, imp_url, extra_import=None):
+def wsdl_body(doc_toks, loc_atoks, tns_atoks, imp_url, extra_import=None, inc_url=None):
     types_kids = []
     schema_kids = []
     if imp_url:
         schema_kids.append(E("xsd:import", [("namespace", IMP_NS), ("schemaLocation", imp_url)]))
+    if inc_url:
+        schema_kids.append(E("xsd:include", [("schemaLocation", inc_url)]))
     schema_kids.append(E("xsd:element", [("name", "f")],
                          E("xsd:complexType", [], E("xsd:sequence", [],
                            E("xsd:element", [("name", "a"), ("type", "xsd:string")])))))
@@ -846,8 +869,8 @@ def wsdl_body(doc_toks, loc_atoks, tns_atoks, imp_url, extra_import=None):
                                   ("xmlns:wsdl", WSDL_NS), ("xmlns:xsd", XSD_NS)], *kids)
 
 
-def xsd_body(doc_toks, name_atoks):
-    return E("xsd:schema", [("targetNamespace", IMP_NS), ("xmlns:xsd", XSD_NS)],
+def xsd_body(doc_toks, name_atoks, tns=IMP_NS):
+    return E("xsd:schema", [("targetNamespace", tns), ("xmlns:xsd", XSD_NS)],
              E("xsd:annotation", [], E("xsd:documentation", [], doc_toks)),
              E("xsd:simpleType", [("name", name_atoks)], E("xsd:restriction", [("base", "xsd:string")])))
 
@@ -1307,8 +1330,22 @@ def _run(ck, suds, proof_ok):
             o.label = "grid:" + label
             outcomes.append(o)
 
+    if thorough:
+        n = 0
+        for k, doc in enumerate(exhaustive_docs()):
+            data = render_doc(doc, sysid_of)
+            o = run_generic(generic_entries[k % len(generic_entries)] if k % 4 == 0 else "parse-string", doc, data, k)
+            o.label = "exhaustive"
+            outcomes.append(o)
+            n += 1
+        ck.exhaustive = True
+        ck.extra["exhaustive_scope"] = ("%d documents: every ordered pair of 23 declaration shapes (internal / external "
+                                        "general and parameter entities, NDATA, ATTLIST defaults, parameter-entity "
+                                        "references; file, http and dead identifiers) x external subset none / planted "
+                                        "/ dead x standalone x 4 bodies" % n)
+
     # ---- 2. random documents through the generic entry points --------------
-    n_random = 4000 if thorough else 700
+    n_random = 4000 if thorough else 1400
     for k in range(n_random):
         doc = g_doc(rng)
         data = render_doc(doc, sysid_of)
@@ -1318,7 +1355,7 @@ def _run(ck, suds, proof_ok):
         outcomes.append(o)
 
     # ---- 3. SOAP replies with a DOCTYPE ------------------------------------
-    n_reply = 600 if thorough else 120
+    n_reply = 800 if thorough else 240
     for k in range(n_reply):
         subset, ext, text, attr = g_payload(rng, strong=(k % 2 == 0))
         doc = mk_doc(subset, reply_body(text, attr), ext=ext, public=bool(k % 3 == 0))
@@ -1328,16 +1365,18 @@ def _run(ck, suds, proof_ok):
         outcomes.append(o)
 
     # ---- 4. WSDL + imported XSD (+ imported WSDL) through Client(...) -------
-    n_load = 400 if thorough else 90
+    n_load = 500 if thorough else 150
     load_requests_bad = []
     n_named_fetches = 0
     for k in range(n_load):
         via = "store" if k % 2 == 0 else "transport"
         pre = "suds://c20/" if via == "store" else "http://c20.invalid/"
         root_url, imp_url, w2_url = pre + "main.wsdl", pre + "imp.xsd", pre + "second.wsdl"
+        inc_url = pre + "inc.xsd"
         s1, e1, t1, a1 = g_payload(rng, strong=True)
         s2, e2, t2, a2 = g_payload(rng, strong=True)
         s3, e3, t3, a3 = g_payload(rng)
+        s4, e4, t4, a4 = g_payload(rng, strong=True)
         tns = [("t", TNS)]
         if k % 3 == 0:
             s1 = [("gi", "tnsent", [T(TNS)])] + s1
@@ -1346,12 +1385,15 @@ def _run(ck, suds, proof_ok):
         # which is a legitimate outcome too)
         loc = [("t", "http://c20.invalid/svc")] + (a1 if k % 4 == 0 else [])
         name2 = [("t", "T")] + (a2 if k % 5 == 0 else [])
-        wsdl = mk_doc(s1, wsdl_body(t1, loc, tns, imp_url, w2_url if k % 3 == 1 else None), ext=e1)
+        with_inc = k % 4 == 2
+        wsdl = mk_doc(s1, wsdl_body(t1, loc, tns, imp_url, w2_url if k % 3 == 1 else None,
+                                    inc_url if with_inc else None), ext=e1)
         xsd = mk_doc(s2, xsd_body(t2, name2), ext=e2, public=True)
         w2 = mk_doc(s3, wsdl2_body(t3), ext=e3)
+        inc = mk_doc(s4, xsd_body(t4, [("t", "U")], tns=TNS), ext=e4)
         docs = {root_url: (wsdl, render_doc(wsdl, sysid_of)), imp_url: (xsd, render_doc(xsd, sysid_of)),
-                w2_url: (w2, render_doc(w2, sysid_of))}
-        named = [root_url, imp_url] + ([w2_url] if k % 3 == 1 else [])
+                w2_url: (w2, render_doc(w2, sysid_of)), inc_url: (inc, render_doc(inc, sysid_of))}
+        named = [root_url, imp_url] + ([w2_url] if k % 3 == 1 else []) + ([inc_url] if with_inc else [])
         outs, requested, err, cap = run_client_load(suds, docs, root_url, via)
         for o in outs:
             o.label = "client-load/" + via
